@@ -80,8 +80,9 @@ With **no address** (`naddr = 0`) mode *all* asks nobody and finishes (`example`
 `resp a` is the status **the publisher sees**, i.e. what `http.Client.Do` returns: with a client that
 follows redirects that is the answer of the *last* request of a chain, which need not carry the body
 (audit round 7, C3). The wire-level statement — the request that carried the body was itself accepted —
-is `Nsq.Props.C20Redirect.http_fin_only_after_body_accepted` (client of fix F45); it is refuted for the
-client of the tree before the fix (`…_following_false`). -/
+is `Nsq.Props.C20Redirect.http_fin_only_after_body_accepted` (POST publisher, any client that follows only
+method-preserving redirects: fix F45 and fix F45b; `…_never` / `…_get_partial` for the GET publisher); it is refuted for
+the client of the tree before the fixes (`…_following_false`). -/
 theorem http_fin_only_after_accept (c : Cfg) (counter : Nat) (m : Msg) (so : Bool) (pick : Nat)
     (resp : Nat → Option Nat) (hfin : Out.fin m.id ∈ (step c counter m so pick resp).2) :
     (c.sampling = true ∧ so = true) ∨
